@@ -21,7 +21,7 @@ ASSUMPTIONS = ["Redis and RabbitMQ are wire-level fakes (RabbitMQ rule R2: per-m
                "virtual time; bounded latency L = 10 s of virtual time after max(T, consumer start)",
                "early = more than 1 ms before T"]
 EVAL_COUNTER = "deliveries_judged"
-REQUIRED = ["deliveries_judged", "due_past", "due_subsecond", "due_seconds", "due_far", "visibility_probes", "multi_scenarios", "peek_scenarios", "peek_returns", "crowd_scenarios"]
+REQUIRED = ["deliveries_judged", "due_past", "due_subsecond", "due_seconds", "due_far", "visibility_probes", "multi_scenarios", "peek_scenarios", "peek_returns", "crowd_scenarios", "timezone_offset_runs"]
 CASE_TIMEOUT = 120
 
 OFFSETS = [-5.0, -0.000001, 0.0004, 0.3, 0.9995, 1.0, 1.5, 5.0, 3600.0, 2592000.0]
@@ -60,6 +60,9 @@ def gen_cases(tier, seed):
         if kind != "rabbit":  # (there a foreign message in front blocks by design: C11's finding)
             for k in ([8, 9, 10, 11, 19, 20, 21, 29, 30] if tier == "thorough" else [9, 10, 19, 20]):
                 cases.append({"type": "crowd", "kind": kind, "k": k, "own": rnd.choice([1, 3]), "phase": rnd.choice(PHASES), "seed": rnd.randrange(10**6)})
+        # the same clock arithmetic on a machine whose local time is not UTC (due times are naive local datetimes)
+        for tz in ("AAA-5", "BBB5"):
+            cases.append({"type": "tz", "kind": kind, "tz": tz, "seed": rnd.randrange(10**6)})
         # a delayed message is looked at through the DELAYED category and given back (reject / finish), while a normal
         # consumer keeps listening: still never early, still delivered within the bound after T
         holds = ["short", "past_earlier", "past_T"]
@@ -246,6 +249,54 @@ async def multi(loop, case, out, stats, fps, samples):
         if len(samples) < 1:
             samples.append({"broker": kind, "dues_s": case["dues"], "delivered_minus_due_s": {k: round(got[k] - due[k], 4) for k in got}})
         await cons.finish()
+        await conn.disconnect()
+        stats["unknown_server_commands"] += rig.unknown_commands()
+    finally:
+        rig.close()
+
+
+async def tz_smoke(loop, case, out, stats, fps):
+    """Public API only, no arithmetic on the harness epoch: jobs deferred by 2 s and 3.5 s (deferred_until / deferred_by)
+    run not before their time and within the bound, whatever the local time zone is."""
+    from repid import Job, Router, Worker
+    from repid.converter import BasicConverter
+    from repid.router import RouterDefaults
+    from rv.rigs import Rig
+
+    kind = case["kind"]
+    rig = Rig(kind, loop, latency=None, seed=case["seed"])
+    try:
+        conn = rig.make_connection("p1")
+        await conn.connect()
+        await conn.message_broker.queue_declare("default")
+        r = Router(defaults=RouterDefaults(converter=BasicConverter))
+        ran = {}
+
+        async def tick(name: str):
+            ran.setdefault(name, datetime.now())
+
+        r.actor(name="tick")(tick)
+        t0 = datetime.now()
+        due = {"u": t0 + timedelta(seconds=2), "b": None}
+        await Job("tick", id_="u", args={"name": "u"}, deferred_until=due["u"], store_result=False, use_args_bucketer=False, _connection=conn).enqueue()
+        jb = Job("tick", id_="b", args={"name": "b"}, deferred_by=timedelta(seconds=3.5), store_result=False, use_args_bucketer=False, _connection=conn)
+        await jb.enqueue()
+        due["b"] = jb.timestamp + timedelta(seconds=3.5)
+        w = Worker(routers=[r], messages_limit=2, handle_signals=[], _connection=conn)
+        try:
+            await asyncio.wait_for(w.run(), 3.5 + L_BOUND + 3)
+        except asyncio.TimeoutError:
+            pass
+        stats["timezone_offset_runs"] += 1
+        fps.add(f"{kind}/tz/{case['tz']}")
+        for name, T in due.items():
+            stats["deliveries_judged"] += 1
+            if name not in ran:
+                out.append(V("late", kind, "timezone-offset", f"TZ={case['tz']}: job {name} due at {T} did not run within {L_BOUND + 3:.0f}s; state {rig.snapshot().get(name)}"))
+            elif ran[name] < T - timedelta(milliseconds=1):
+                out.append(V("early", kind, "timezone-offset", f"TZ={case['tz']}: job {name} due at {T} ran at {ran[name]}"))
+            elif ran[name] > T + timedelta(seconds=L_BOUND):
+                out.append(V("late", kind, "timezone-offset", f"TZ={case['tz']}: job {name} due at {T} ran at {ran[name]}"))
         await conn.disconnect()
         stats["unknown_server_commands"] += rig.unknown_commands()
     finally:
@@ -444,6 +495,23 @@ def run_case(case):
         res = vl.run(lambda loop: multi(loop, case, out, stats, fps, samples), max_steps=3_000_000, seed=case["seed"])
         if res.exc is not None:
             out.append(V("harness_or_api_error", case["kind"], "multi", f"{type(res.exc).__name__}: {res.exc}"))
+    elif case["type"] == "tz":
+        import os
+        import time as _time
+
+        old = os.environ.get("TZ")
+        os.environ["TZ"] = case["tz"]
+        _time.tzset()
+        try:
+            res = vl.run(lambda loop: tz_smoke(loop, case, out, stats, fps), max_steps=6_000_000, seed=case["seed"])
+        finally:
+            if old is None:
+                os.environ.pop("TZ", None)
+            else:
+                os.environ["TZ"] = old
+            _time.tzset()
+        if res.exc is not None:
+            out.append(V("harness_or_api_error", case["kind"], "tz", f"{type(res.exc).__name__}: {res.exc}"))
     elif case["type"] == "crowd":
         res = vl.run(lambda loop: crowd(loop, case, out, stats, fps), max_steps=6_000_000, seed=case["seed"])
         if res.exc is not None:
